@@ -8,18 +8,21 @@ use sux::utils::FromIntoIterator;
 /// executable twin of the C08 contracts: every key is a member through both query paths; with b hash bits the number of
 /// false positives among `probes` non-keys stays below probes / 2^b * 8 + 8 (for b = BITS of a 64-bit word: none at all)
 /// input: [n, filter_bits, word (0 = u64 bit-field, 1 = u16 bit-field, 2 = boxed u8), hint (0 = exact key count, 1 = none, 2 = 4n/3, 3 = n/2, 4 = 3n)]:
-/// expected_num_keys is only a hint, the filter must be right whatever it says
+/// expected_num_keys is only a hint, the filter must be right whatever it says; optional fifth entry: the keys are off .. off + n (different key sets
+/// take different paths through the builder's retry loop: duplicate local signatures, a largest shard too big, unsolvable systems)
 fn with_hint<W: sux::traits::Word + epserde::traits::ZeroCopy, D: sux::traits::bit_field_slice::BitFieldSlice<W> + Send + Sync>(b: VBuilder<W, D>, hint: Option<usize>) -> VBuilder<W, D> { match hint { Some(h) => b.expected_num_keys(h), None => b } }
 
 fn case(inp: &[u64]) -> Result<(), String> {
     let (n, bits, kind) = (inp[0] as usize, inp[1] as usize, inp[2] % 3);
     let hint: Option<usize> = match inp.get(3).copied().unwrap_or(0) % 5 { 0 => Some(n), 1 => None, 2 => Some(n + n / 3), 3 => Some(n / 2), _ => Some(3 * n) };
     let probes = 4000usize;
+    let off = inp.get(4).copied().unwrap_or(0) as usize;
     macro_rules! check { ($f:expr, $b:expr, $unal:expr) => {{
         let f = $f;
-        for k in 0..n { if !f.contains(k) { return Err(format!("key {} is a false negative", k)); } }
+        if f.len() != n { return Err(format!("len() = {} for {} keys", f.len(), n)); }
+        for k in off..off + n { if !f.contains(k) { return Err(format!("key {} is a false negative", k)); } if !f[k] { return Err(format!("filter[{}] is false for a key (contains is true)", k)); } }
         let mut fp = 0usize;
-        for k in n..n + probes { if f.contains(k) { fp += 1; } }
+        for k in off + n..off + n + probes { if f.contains(k) { fp += 1; } if f[k] != f.contains(k) { return Err(format!("filter[{}] differs from contains", k)); } }
         let allowed = if $b >= 32 { 0 } else { (probes >> $b) * 8 + 8 };
         if n > 0 && fp > allowed { return Err(format!("{} false positives among {} non-keys with {} hash bits (allowed {})", fp, probes, $b, allowed)); }
         if f.hash_bits() as usize != $b { return Err(format!("hash_bits() = {} for {} bits", f.hash_bits(), $b)); }
@@ -28,15 +31,15 @@ fn case(inp: &[u64]) -> Result<(), String> {
     match kind {
         0 => { let b = bits.clamp(1, 64);
                let f: VFilter<u64, VFunc<usize, u64, BitFieldVec<u64>>> = with_hint(VBuilder::<u64, BitFieldVec<u64>>::default().offline(false), hint)
-                   .try_build_filter(FromIntoIterator::from(0..n), b, no_logging![]).map_err(|e| e.to_string())?;
-               if b <= 58 || b == 60 || b == 64 { for k in 0..n { if !f.contains_unaligned(k) { return Err(format!("key {} is a false negative (unaligned)", k)); } } }
+                   .try_build_filter(FromIntoIterator::from(off..off + n), b, no_logging![]).map_err(|e| e.to_string())?;
+               if b <= 58 || b == 60 || b == 64 { for k in off..off + n { if !f.contains_unaligned(k) { return Err(format!("key {} is a false negative (unaligned)", k)); } } }
                check!(f, b, true) }
         1 => { let b = bits.clamp(1, 16);
                let f: VFilter<u16, VFunc<usize, u16, BitFieldVec<u16>>> = with_hint(VBuilder::<u16, BitFieldVec<u16>>::default().offline(false), hint)
-                   .try_build_filter(FromIntoIterator::from(0..n), b, no_logging![]).map_err(|e| e.to_string())?;
+                   .try_build_filter(FromIntoIterator::from(off..off + n), b, no_logging![]).map_err(|e| e.to_string())?;
                check!(f, b, false) }
         _ => { let f: VFilter<u8, VFunc<usize, u8, Box<[u8]>>> = with_hint(VBuilder::<u8, Box<[u8]>>::default().offline(false), hint)
-                   .try_build_filter(FromIntoIterator::from(0..n), no_logging![]).map_err(|e| e.to_string())?;
+                   .try_build_filter(FromIntoIterator::from(off..off + n), no_logging![]).map_err(|e| e.to_string())?;
                check!(f, 8usize, false) }
     }
 }
@@ -51,5 +54,9 @@ pub fn run(case_name: &str, ctx: &mut Ctx, one: Option<&str>, rng: &mut Rng, bud
     } } }
     // sizes at which the default ShardEdge splits the keys into several shards (100_000 ..= 800_000 keys)
     if budget >= 1000 { for (n, bits, kind, hint) in [(100_000u64, 9u64, 0u64, 0u64), (200_000, 64, 0, 0), (300_000, 16, 1, 0), (150_000, 8, 2, 0), (810_000, 5, 0, 0), (90_000, 10, 0, 2), (120_000, 10, 0, 3), (150_000, 12, 0, 4), (120_000, 7, 1, 1), (250_000, 8, 2, 3)] { let v = vec![n, bits, kind, hint]; let s = fmt_list(&v); ctx.trial(&s, false, || case(&v)); } }
+    // key sets whose first seed makes the largest shard too big (the rare retry that only rewinds): 4_000_000 .. 4_200_000 is one; a few more offsets
+    if budget >= 1000 { for (n, bits, kind, hint, off) in [(200_000u64, 8u64, 0u64, 0u64, 4_000_000u64), (200_000, 8, 2, 1, 4_000_000), (400_000, 12, 0, 0, 1_000_000), (810_000, 6, 0, 0, 7_000_000), (810_000, 8, 2, 1, 20_000_000), (810_000, 9, 0, 0, 50_000_000)] {
+        let v = vec![n, bits, kind, hint, off]; let s = fmt_list(&v); ctx.trial(&s, false, || case(&v)); } }
+    for _ in 0..budget.min(20) { let v = vec![rng.below(3000), 1 + rng.below(64), rng.below(3), rng.below(5), rng.next() >> 20]; let s = fmt_list(&v); ctx.trial(&s, false, || case(&v)); }
     for _ in 0..budget.min(20) { let v = vec![rng.below(3000), 1 + rng.below(64), rng.below(3), rng.below(5)]; let s = fmt_list(&v); ctx.trial(&s, false, || case(&v)); }
 }
